@@ -55,6 +55,12 @@ def padShape : Shape → List Nat → List Nat → Shape
   | s :: ss, b :: bs, a :: as => (s + b + a) :: padShape ss bs as
   | _, _, _ => []
 
+/-- element of the padded view (fill value 0) -/
+def padGet (a : Arr Int) (before : List Nat) (d : Idx) : Int :=
+  match padIdx d a.shape before with
+  | some i => a.get i
+  | none => 0
+
 /-- `view::pad(a, widths)` with fill value 0 -/
 def padV (a : Arr Int) (widths : List Nat) : Option (Arr Int) :=
   let dim := a.shape.length
@@ -62,10 +68,7 @@ def padV (a : Arr Int) (widths : List Nat) : Option (Arr Int) :=
   else
     let before := widths.take dim
     let after := widths.drop dim
-    some ⟨padShape a.shape before after, fun d =>
-      match padIdx d a.shape before with
-      | some i => a.get i
-      | none => 0⟩
+    some ⟨padShape a.shape before after, padGet a before⟩
 
 /-! ### expand (insert `spacing` fill elements between neighbours on the listed axes) -/
 
@@ -82,11 +85,14 @@ def expandIdx (srcDim : Nat) : List (Int × Nat) → Idx → Option Idx
       if d.getD k 0 % (sp + 1) ≠ 0 then none
       else expandIdx srcDim rest (d.set k (d.getD k 0 / (sp + 1)))
 
+/-- element of the expanded view (fill value 0) -/
+def expandGet (a : Arr Int) (axes : List Int) (spacing : List Nat) (d : Idx) : Int :=
+  match expandIdx a.shape.length (axes.zip spacing) d with
+  | some i => a.get i
+  | none => 0
+
 def expandV (a : Arr Int) (axes : List Int) (spacing : List Nat) : Arr Int :=
-  ⟨expandShape a.shape axes spacing, fun d =>
-    match expandIdx a.shape.length (axes.zip spacing) d with
-    | some i => a.get i
-    | none => 0⟩
+  ⟨expandShape a.shape axes spacing, expandGet a axes spacing⟩
 
 /-! ### sliding_window with an explicit axis list -/
 
